@@ -31,6 +31,8 @@
 #define HAVE_BOOLEAN
 #endif
 
+#include <setjmp.h>
+
 #include "jpeglib.h"
 #include "jerror.h"
 
@@ -49,6 +51,21 @@ typedef struct {
 } hdf_destination_mgr;
 
 typedef hdf_destination_mgr *hdf_dest_ptr;
+
+/* Error manager: the IJG default error_exit() prints a message and calls exit().  A failed
+   Hstartwrite/Hwrite in the destination manager below must come back to DFCIjpeg instead. */
+typedef struct {
+    struct jpeg_error_mgr pub;    /* public fields */
+    jmp_buf               escape; /* where DFCIjpeg cleans up and returns FAIL */
+} hdf_error_mgr;
+
+static void
+hdf_error_exit(j_common_ptr cinfo)
+{
+    hdf_error_mgr *err = (hdf_error_mgr *)cinfo->err;
+
+    longjmp(err->escape, 1);
+}
 
 #define OUTPUT_BUF_SIZE 4096 /* size of JPEG output buffer */
 
@@ -141,10 +158,17 @@ hdf_term_destination(struct jpeg_compress_struct *cinfo_ptr)
     }
 
     /* close the HDF object */
-    Hendaccess(dest->aid);
+    {
+        int32 aid = dest->aid;
+
+        dest->aid = 0; /* closed, whatever Hendaccess says */
+        if (Hendaccess(aid) == FAIL)
+            ERREXIT(cinfo_ptr, JERR_FILE_WRITE);
+    }
 
     /* Free the output buffer */
     free(dest->buffer);
+    dest->buffer = NULL;
 
 } /* end hdf_term_destination() */
 
@@ -180,6 +204,7 @@ jpeg_HDF_dest(struct jpeg_compress_struct *cinfo_ptr, int32 file_id, uint16 tag,
     dest->pub.term_destination    = hdf_term_destination;
 
     /* Now the HDF specific parameters */
+    dest->buffer  = NULL; /* allocated by hdf_init_destination */
     dest->aid     = 0; /* start with no AID */
     dest->file_id = file_id;
     dest->tag     = tag;
@@ -241,7 +266,7 @@ DFCIjpeg(int32 file_id, uint16 tag, uint16 ref, int32 xdim, int32 ydim, const vo
      * calling routine is the best strategy.
      */
     struct jpeg_compress_struct *cinfo_ptr;
-    struct jpeg_error_mgr       *jerr_ptr;
+    hdf_error_mgr               *jerr_ptr;
     JSAMPROW                     row_pointer[1];
     int                          row_stride;
     const uint8                 *image_buffer = image;
@@ -249,13 +274,33 @@ DFCIjpeg(int32 file_id, uint16 tag, uint16 ref, int32 xdim, int32 ydim, const vo
     if ((cinfo_ptr = calloc(1, sizeof(struct jpeg_compress_struct))) == NULL)
         HRETURN_ERROR(DFE_NOSPACE, FAIL);
 
-    if ((jerr_ptr = malloc(sizeof(struct jpeg_error_mgr))) == NULL)
+    if ((jerr_ptr = malloc(sizeof(hdf_error_mgr))) == NULL) {
+        free(cinfo_ptr);
         HRETURN_ERROR(DFE_NOSPACE, FAIL);
+    }
 
     /* Initialize the error-handling routines */
-    cinfo_ptr->err = jpeg_std_error(jerr_ptr);
+    cinfo_ptr->err           = jpeg_std_error(&jerr_ptr->pub);
+    jerr_ptr->pub.error_exit = hdf_error_exit;
     if (jpeg_message_handler != NULL) {
-        jerr_ptr->output_message = jpeg_message_handler;
+        jerr_ptr->pub.output_message = jpeg_message_handler;
+    }
+
+    /* The JPEG library or the HDF destination manager gave up (ERREXIT): release everything
+       and report the failure to the caller */
+    if (setjmp(jerr_ptr->escape)) {
+        hdf_dest_ptr dest = (hdf_dest_ptr)cinfo_ptr->dest;
+
+        if (dest != NULL) {
+            if (dest->aid != 0 && dest->aid != FAIL)
+                Hendaccess(dest->aid);
+            free(dest->buffer);
+        }
+        jpeg_destroy_compress(cinfo_ptr);
+        free(dest);
+        free(jerr_ptr);
+        free(cinfo_ptr);
+        HRETURN_ERROR(DFE_WRITEERROR, FAIL);
     }
 
     /* Initialize the JPEG compression stuff */
